@@ -32,6 +32,13 @@ def pushFace (s : St) (e : Option Nat) : St := { s with fAdj := s.fAdj.push e }
 def pushVertex (s : St) (p : Pt) (d : Nat) (e : Option Nat) : St :=
   { s with pos := s.pos.push p, data := s.data.push d, vOut := s.vOut.push e }
 
+/-- `make_constraint_edge` on the undirected edge of half-edge `e` (the flag array is indexed by
+undirected edge and may be shorter than the edge array in a dump of a plain triangulation) -/
+def markFlag (s : St) (e : Nat) : St :=
+  let u := e / 2
+  let fl := if s.flag.size ≤ u then s.flag ++ Array.replicate (u + 1 - s.flag.size) false else s.flag
+  { s with flag := fl.setIfInBounds u true }
+
 /-- primitive writes of the DCEL operations -/
 inductive Instr where
   | next (e x : Nat) | prev (e x : Nat) | face (e x : Nat) | origin (e x : Nat)
@@ -217,12 +224,14 @@ def flipCw (s : St) (u : Nat) : St :=
 
 /-! ### TriangulationExt glue -/
 
-/-- `legalize_edge` for a plain Delaunay triangulation (nothing is "defined legal"); the stack is
+/-- `legalize_edge` (constraint edges of a CDT are "defined legal" and skipped); the stack is
 LIFO like the `SmallVec` in the code (the head of the list is the top) -/
 def legalizeLoop (fully : Bool) : Nat → St → List Nat → St
   | 0, s, _ => s
   | _, s, [] => s
   | fuel + 1, s, e :: stack =>
+    -- `is_defined_legal`: a constraint edge of a CDT is never examined (no flags in a plain DT)
+    if s.isFlag e then legalizeLoop fully fuel s stack else
     let r := s.rv e
     if s.fc r = 0 ∨ s.fc e = 0 then legalizeLoop fully fuel s stack
     else
@@ -248,16 +257,16 @@ def insertIntoFace (s : St) (f : Nat) (p : Pt) (d : Nat) : St × Nat :=
   let (s, v) := s.insertIntoTriangle f p d
   (s.legalizeVertex v, v)
 
-def insertOnEdge (s : St) (edge : Nat) (p : Pt) (d : Nat) : St × Nat :=
-  if s.fc edge = 0 then
-    let (s, v, _, _) := s.splitHalfEdge (s.rv edge) p d
-    (s, v)
-  else if s.fc (s.rv edge) = 0 then
-    let (s, v, _, _) := s.splitHalfEdge edge p d
-    (s, v)
-  else
-    let (s, v, _, _) := s.splitEdge edge p d
-    (s, v)
+/-- returns the new vertex and the two halves of the split edge -/
+def insertOnEdge (s : St) (edge : Nat) (p : Pt) (d : Nat) : St × Nat × Nat × Nat :=
+  if s.fc edge = 0 then s.splitHalfEdge (s.rv edge) p d
+  else if s.fc (s.rv edge) = 0 then s.splitHalfEdge edge p d
+  else s.splitEdge edge p d
+
+/-- `handle_legal_edge_split` of the CDT: both halves of a split constraint edge are constraint
+edges (a plain triangulation has no flags and this does nothing) -/
+def splitFlags (s : St) (wasFlag : Bool) (e0 e1 : Nat) : St :=
+  if wasFlag then (s.markFlag e0).markFlag e1 else s
 
 def ccwWalk (p : Pt) : Nat → St → Nat → St
   | 0, s, _ => s
@@ -325,7 +334,9 @@ def insertM (s : St) (p : Pt) (d : Nat) (hint : Nat) : Option (St × Nat) :=
     else some (s.insertSecondVertex p d)
   else if s.nF = 1 then
     match s.locateOnLine p with
-    | .onEdge e => some (s.splitEdgeOnLine e p d)
+    | .onEdge e =>
+      -- the two halves: `edge` and the new normalized half-edge (index = old edge count)
+      some (((s.splitEdgeOnLine e p d).1.splitFlags (s.isFlag e) e s.nE), (s.splitEdgeOnLine e p d).2)
     | .onVertex v => some ({ s with data := s.data.setIfInBounds v d }, v)
     | .notOnLine e => some (s.insertOutsideOfConvexHull e p d)
     | .extending v => some (s.extendLine v p d)
@@ -335,8 +346,9 @@ def insertM (s : St) (p : Pt) (d : Nat) (hint : Nat) : Option (St × Nat) :=
     | some (.outside e) => some (s.insertOutsideOfConvexHull e p d)
     | some (.onFace f) => some (s.insertIntoFace f p d)
     | some (.onEdge e) =>
-      let (s, v) := s.insertOnEdge e p d
-      some (s.legalizeVertex v, v)
+      let r := s.insertOnEdge e p d
+      -- `is_defined_legal(edge)` is asked after the split: `edge` still names one of the halves
+      some ((r.1.splitFlags (r.1.isFlag e) r.2.2.1 r.2.2.2).legalizeVertex r.2.1, r.2.1)
     | some (.onVertex v) => some ({ s with data := s.data.setIfInBounds v d }, v)
     | some .noTri => none
 
@@ -410,7 +422,8 @@ def sameStructure (a b : St) : Bool :=
   a.pos == b.pos && a.data == b.data && a.vOut == b.vOut && a.fAdj == b.fAdj &&
   a.he.size == b.he.size &&
   (List.range a.he.size).all fun e =>
-    a.org e == b.org e && a.nxt e == b.nxt e && a.prv e == b.prv e && a.fc e == b.fc e
+    a.org e == b.org e && a.nxt e == b.nxt e && a.prv e == b.prv e && a.fc e == b.fc e &&
+    a.isFlag e == b.isFlag e
 
 end St
 end Spade
